@@ -206,6 +206,12 @@ func runC18Colour(c *Ctx) {
 			c.bad("detectCyclicNode|back edge", al.Pos(), "the reported edge is not from the visited node to a neighbour that is still active: the printed cycle is not a cycle of the graph")
 		}
 	})
+	// every neighbour is examined: the loop over them is left early only with a cycle
+	if leaks := searchLoopLeaks(p, fn); len(leaks) == 0 {
+		c.ok("detectCyclicNode|every neighbour examined", fn.Pos(), "the loop over the neighbours is left before its end only by returning a cycle")
+	} else {
+		c.bad("detectCyclicNode|every neighbour examined", fn.Pos(), strings.Join(leaks, "; ")+": the remaining neighbours are never looked at, a cycle through them is missed")
+	}
 	// (d) the search starts from new nodes only, and propagates the first cycle
 	for _, call := range findCalls(first, "detectCyclicNode") {
 		arg := call.Common().Args[0]
@@ -306,6 +312,12 @@ func runC18Cycle(c *Ctx) {
 	} else {
 		c.bad("collectCycle|path recorded before descending", fn.Pos(), "the edge is not recorded before descending")
 	}
+	// every neighbour is tried: the loop over them is left early only when the cycle was closed
+	if leaks := searchLoopLeaks(p, fn); len(leaks) == 0 {
+		c.ok("collectCycle|every neighbour tried", fn.Pos(), "the loop over the neighbours is left before its end only by returning true")
+	} else {
+		c.bad("collectCycle|every neighbour tried", fn.Pos(), strings.Join(leaks, "; ")+": the neighbour that continues the cycle is never tried when an earlier one is left over from a finished search, and the collected path does not close")
+	}
 	del := false
 	eachInstr(fn, func(_ *ssa.BasicBlock, _ int, in ssa.Instruction) {
 		if call, ok := in.(*ssa.Call); ok {
@@ -339,6 +351,7 @@ func runC18Report(c *Ctx) {
 	}
 	// dangling reference: reported iff the lookup of a needs entry fails, at the referring node's position
 	var dangling ssa.CallInstruction
+	var danglingIf *ssa.If
 	var errfCalls []ssa.CallInstruction
 	for _, f := range scope {
 		errfCalls = append(errfCalls, findCalls(f, "(*RuleBase).Errorf")...)
@@ -356,7 +369,7 @@ func runC18Report(c *Ctx) {
 					}
 				}
 				if okKey {
-					dangling = call
+					dangling, danglingIf = call, ifi
 				}
 			}
 		}
@@ -380,6 +393,13 @@ func runC18Report(c *Ctx) {
 			c.bad("(*RuleJobNeeds).VisitWorkflowPost|dangling reference", dangling.Pos(), "not reported at the referring job")
 		default:
 			c.ok("(*RuleJobNeeds).VisitWorkflowPost|dangling reference", dangling.Pos(), "reported iff the needs entry is not a job, at the referring job")
+		}
+		// every needs entry of every job is looked up: the loops around the lookup are not left early (the report itself is
+		// outside the loop when it is followed by a break or a return)
+		if exits := earlyExitsAround(p, danglingIf.Block()); len(exits) == 0 {
+			c.ok("(*RuleJobNeeds).VisitWorkflowPost|every reference looked up", dangling.Pos(), "the loops over the jobs and over their needs entries run to their end")
+		} else {
+			c.bad("(*RuleJobNeeds).VisitWorkflowPost|every reference looked up", dangling.Pos(), strings.Join(exits, "; ")+": the needs entries behind it are neither reported when they dangle nor made edges of the graph")
 		}
 	}
 	// resolved neighbours: appended iff found, the looked-up node itself
